@@ -71,7 +71,8 @@ def make_model(kind, m):
         mod = M()
         params = [('X', 'group', 'SO3', xs, mod.X)]
         return mod, params, p, y, ps, ys, {'rot_slices': [(0, 3)]}
-    if kind == 'SE3+euclid+frozen':
+    if kind in ('SE3+euclid+frozen', 'frozen+SE3+euclid'):
+        first = kind.startswith('frozen')
         X, xs = sym_group(m, 'SE3', 'x', 202)
         e = torch.randn(3, dtype=DT, generator=gen) * 0.3
         f = torch.randn(3, dtype=DT, generator=gen) * 0.3
@@ -83,14 +84,19 @@ def make_model(kind, m):
         class M(nn.Module):
             def __init__(s):
                 super().__init__()
+                if first:       # registration order = order in the optimizer's parameter group
+                    s.f = nn.Parameter(f, requires_grad=False)
                 s.X = pp.Parameter(X)
                 s.e = nn.Parameter(e)
-                s.f = nn.Parameter(f, requires_grad=False)
+                if not first:
+                    s.f = nn.Parameter(f, requires_grad=False)
 
             def forward(s, inp):
                 return s.X.Act(inp + s.e) + s.f
         mod = M()
         params = [('X', 'group', 'SE3', xs, mod.X), ('e', 'vec', None, es, mod.e), ('f', 'frozen', None, fs, mod.f)]
+        if first:
+            params = params[2:] + params[:2]
         return mod, params, p, y, ps, ys, {'rot_slices': [(3, 6)]}
     if kind == 'so3-algebra+two-outputs':
         a = rand_alg('SO3', 203, sigma=0.5)
